@@ -1,7 +1,7 @@
 #!/bin/bash
 # tools/seeded_matrix.sh [tier]: applies every seeded change in /verif/seeded to /repo in turn, runs the check of
 # its property, undoes it, and writes /verif/seeded/RESULTS.md + detected_by into meta.json.
-cd /verif || exit 2
+cd "$(dirname "$0")/.." || exit 2
 tier="${1:-quick}"
 out=seeded/RESULTS.md
 echo "| seeded change | property | check ($tier) | exit | violation signatures |" > $out
